@@ -51,7 +51,7 @@ def run(ctx):
 
     # R: explicit GC while a worker / merge thread is parked right after its k-th file creation
     gp = ctx.path("gcrace.ndjson")
-    vlib.run_bin("core_driver", ["gcrace", "--seed", ctx.seed, "--runs", 12 if ctx.quick else 60, "--out", gp], timeout=900)
+    vlib.run_bin("core_driver", ["gcrace", "--seed", ctx.seed, "--runs", 16 if ctx.quick else 80, "--out", gp], timeout=900)
     gev = vlib.read_ndjson(gp)
     realised = sum(1 for e in gev if e.get("ev") == "schedule" and e.get("realised"))
     gruns = sc.storage_runs(gev)
